@@ -191,6 +191,19 @@ def lap_op(rng, integer):
     n = rng.choice([0, 1, 2, 2, 3, 3, 4, 4, 5, 5, 6, 7])
     if rng.random() < 0.04:
         return "lap %s" % mat(rng, n, other(rng, n), True)
+    if n >= 2 and rng.random() < 0.25:
+        # every column has its minimum in a different row: the column reduction assigns all rows (the
+        # part of the routine that is transcribed and proved, `Lap.lapEasy`)
+        rows = list(range(n)); rng.shuffle(rows)
+        if integer:
+            v = [rng.randint(0, 9) for _ in range(n * n)]
+            for j in range(n):
+                v[rows[j] * n + j] = -rng.randint(1, 5)
+        else:
+            v = [rng.uniform(0, 5) for _ in range(n * n)]
+            for j in range(n):
+                v[rows[j] * n + j] = -rng.uniform(0.1, 5)
+        return ("lap %d %d %s" % (n, n, " ".join(hx(x) for x in v))).strip()
     if integer:
         lo, hi = rng.choice([(0, 1), (0, 2), (0, 3), (1, 9), (-5, 5), (0, 100)])
         v = [rng.randint(lo, hi) for _ in range(n * n)]
@@ -382,7 +395,18 @@ def coverage_extra(cases, answers):
             elif len(t) > 2 and t[1].isdigit() and t[2].isdigit() and not t[0].startswith("m"):
                 key = t[1] + "x" + t[2]
                 shapes[key] = shapes.get(key, 0) + 1
-    return {"first_operand_shapes": dict(sorted(shapes.items())), "storage_triples_used": len(kinds),
+    lap_transcribed = 0
+    for c, a in zip(cases, answers):
+        for l, r in zip(c[1:], a or []):
+            if l.startswith("lap ") and r.startswith("cost "):
+                t = l.split(); n = int(t[1])
+                if n == int(t[2]) and n >= 1:
+                    import struct as _s
+                    vals = [_s.unpack(">d", bytes.fromhex(x))[0] for x in t[3:]]
+                    im = [min(range(n), key=lambda i: (vals[i * n + j], i)) for j in range(n)]
+                    if len(set(im)) == n:
+                        lap_transcribed += 1
+    return {"lap_inputs_in_transcribed_domain": lap_transcribed, "first_operand_shapes": dict(sorted(shapes.items())), "storage_triples_used": len(kinds),
             "storage_triples": dict(sorted(kinds.items())), "lap_sizes": dict(sorted(lapn.items())),
             "dimension_errors_raised": nonconf, "aborted_on_contract_violation": crashed,
             "integer_cases": integer_cases, "real_cases": real_cases}
